@@ -222,7 +222,7 @@ func init() {
 			"stateful clause asserted one-directionally as stated: committed => ErrCode != ErrNoError; answers for never-committed transactions are logged, not asserted",
 			"heights stay below 2^32-10^5 so that uint32 wrap-around of the window end is never reached",
 			"crash model of C12: sentinel panic at a named persistence point, file handles closed, reopen"},
-		QuickRuns: 2000, ThoroughRuns: 60000, QuickCap: 40, ThoroughCap: 700,
+		QuickRuns: 640, ThoroughRuns: 40000, QuickCap: 40, ThoroughCap: 700,
 		RequiredProbes: []string{"evicted_tx_not_duplicate", "dup_at_exact_start", "tracked_only_below_start_not_dup", "ignored_block_tx_not_duplicate",
 			"ignored:gap", "ignored:repeat", "ignored:older", "ignored:below", "refused_below_base", "stateful_dup_after_restart", "stateful_dup_after_crash", "window_at_capacity"},
 		Generate: genC38,
